@@ -4,23 +4,58 @@ from common import STATEX_ASSUME, splice_qbft
 
 
 CHECK = dict(
-    pkgs=["core/qbft"],
-    files={"core/qbft": ["zz_verif_c02_test.go", "zz_verif_hook.go"]},
+    pkgs=["core/qbft", "core/consensus/qbft"],
+    files={"core/qbft": ["zz_verif_c02_test.go", "zz_verif_hook.go"],
+           "core/consensus/qbft": ["zz_verif_c05_test.go", "zz_verif_c05x_test.go", "zz_verif_c02l_test.go", "zz_verif_c03l_test.go"]},
     libs=["enumx"],
     splice={"core/qbft/qbft.go": splice_qbft},
-    run="TestVerifC03",
+    run={"core/qbft": "TestVerifC03", "core/consensus/qbft": "TestVerifC03L"},
     level="model_checking",
     engine="statex",
     technique="explicit-state model checking of the implementation: breadth-first search over the reachable global states of 3-7 real qbft.Run "
               "instances driven event by event (deliveries, timeouts, inputs) under a message-constructing Byzantine adversary; state keys are "
-              "canonical dumps of Run's private state",
+              "canonical dumps of Run's private state; plus, at the level of the consensus component (core/consensus/qbft, TestVerifC03L), exhaustive "
+              "enumeration of a finite product of scripts executed on four real Consensus components in virtual time, in which a Byzantine member that owns "
+              "only its own key and what it has received sends messages carrying sub-messages that claim other members' votes",
     claim="all global states reachable within the stated menu/bounds (rounds <= R, values, quorum-directed delivery sets, bounded noise) of n real "
-          "qbft.Run instances; validity and integrity (decide once, non-empty, leader-proposed value, commit quorum for exactly that value and round) checked on every transition",
+          "qbft.Run instances; validity and integrity (decide once, non-empty, leader-proposed value, commit quorum for exactly that value and round) checked on every transition. "
+          "Component part (TestVerifC03L): real NewConsensus components (real gater, deadliner, eager-double-linear round timers, transport, wire decoding and "
+          "Consensus.handle; stub libp2p host of the C05 harness), n=4, every honest member proposes a different value, the fourth member honest or Byzantine "
+          "under every index. The Byzantine member is the yes-voter of the C02 component part (and proposes its own value when it leads round 1) or silent, and "
+          "fires exactly one strategy at one instant, to one victim or to every honest member. Instants: pre (round-1 leader has not proposed yet), pp (round-1 "
+          "PRE-PREPARE seen, every round-1 PREPARE between honest members lost so that nobody commits), rt (round 1 timed out without a proposal, round 2), late "
+          "(the victim starts late and has lost everything, the others have decided); thorough adds rt-pp (PRE-PREPARE seen, rounds 1 and 2 timed out, round 3) and "
+          "post (everybody decided). Forms (outer message properly signed by the Byzantine member under its own index, carrying q-1 sub-messages that claim votes of "
+          "the two other members, followed by its own genuine PREPARE and COMMIT for the same round and value): commit+commits, commit+prepares, prepare+prepares, "
+          "prepare+commits (amplification: outer types whose justification core/qbft never asks for but flatten/classify count), decided+commits, "
+          "roundchange+prepares, preprepare-next+roundchanges, preprepare+commits (as leader of the round or not). Claims: unsigned | signed with the Byzantine key "
+          "under the other member's peer_idx | a genuine message of that member of another type/round with type/round/value_hash rewritten | a genuine message of "
+          "that member of the same type and round with value_hash rewritten. Targets: a value W nobody proposes (attached) | the value the round-1 leader really "
+          "proposed | the zero hash. Controls (genuine material only, must be accepted): relay-genuine, decided-mixed (DECIDED carrying its own COMMIT for W before a "
+          "genuine COMMIT quorum for the leader's value), extra-values (votes with W attached in front), under map rotations 0..3. Quick: attester duty, victim = "
+          "highest honest non-leader, 4 instants x 8 forms x 4 claims x 3 targets x {victim, all} + controls + the shapes without strategy (also four honest, also "
+          "the silent member) = 3492 scripts, plus 42 scripts of an aggregator duty (other leaders, no Participate, other duty start) = 3534; thorough: both duties x "
+          "{yes-voter, silent} x 6 instants x every victim x the full strategy alphabet = 62544 scripts. Combinations whose material the member cannot hold at the "
+          "instant (e.g. the leader's value before it was proposed, a genuine message to rewrite before anything was sent) are executed without the strategy and "
+          "counted (component_strategy_material_not_held). Oracle, per honest member, from harness-side records (frames every honest member really handed to the "
+          "network, messages the Byzantine member sent, values handed to subscribers): at most one decision; never the empty value; the value was sent in a "
+          "PRE-PREPARE by the designated leader of that round (four honest: also some member's own proposal); some round r has #honest members that really sent "
+          "COMMIT(r, value) + (1 if a Byzantine member exists) >= 3. Counters: forged messages sent / rejected by handle (all, on the unchanged tree), control and "
+          "trigger messages accepted, decisions judged",
     trusted="testing/synctest quiescence; the one-line snapshot splice; state-key completeness (cross-checked by executing every local transition "
             "from two different representative histories)",
     rule="BFS over global states (tuple of local Run states + message pool); transitions are deliveries of enabling message sets, timeouts, inputs; "
-         "distinct = distinct global states",
-    assumptions=STATEX_ASSUME,
+         "distinct = distinct global states; component part: one evaluation per script, distinct classes = (duty type, Byzantine behaviour, instant, form, "
+         "claim, target, number of honest members that decided)",
+    assumptions=STATEX_ASSUME + [
+        "component part: one pinned select order and map rotation 0 per execution (rotations 1..3 only for the control strategies); goroutine interleavings "
+        "inside one virtual instant are whatever the single-P runtime produces (candidates are re-executed three times before they are reported)",
+        "component part: n=4, one duty per script, fixed instants (strategy at 0.3 / 0.6 / 1.0 / 1.3 / 2.3 s after the duty's start), one strategy per script, "
+        "claims always about the two members other than the addressee; the strategy messages are handed to the addressee's Consensus.handle after the wire "
+        "decoding of the receive path (so that handle's verdict is observed), the ordinary traffic goes through the stub network",
+        "component part: clause 4 of the oracle is judged at the end of the script (commit votes really sent at any time), so a decision that is only "
+        "EARLIER than its real quorum is not reported; the stalled shapes (pp, rt, late) are there so that no real quorum ever forms for the forged round",
+    ],
     budget_s={"quick": 100, "thorough": 1500},
     shards={"quick": 16, "thorough": 16},
     gomaxprocs=1,
